@@ -4,9 +4,22 @@ from . import corpus
 from . import tracecheck
 from .limbs import num
 
-C03 = {"ThresholdAsConfigured", "ShutoffAsConfigured", "StarvingMeansNoFeed", "NotBelowRound1", "FloorAtT", "WithinDemand", "ZeroAfterShutoff", "DemandZeroAfterShutoff",
+C03 = {"ThresholdAsConfigured", "ShutoffAsConfigured", "DemandAsConfigured", "StarvingMeansNoFeed", "NotBelowRound1", "FloorAtT", "WithinDemand", "ZeroAfterShutoff", "DemandZeroAfterShutoff",
        "DemandNonNeg", "ThresholdInRange"}
 C16 = {"LegalOrder", "SolverOptimal", "ValidatorsPass", "Completed", "PercentFedFiniteNonNeg"}
+
+
+_TABLE = {}
+
+
+def table_row(cc):
+    if not _TABLE:
+        import csv
+        import os
+        with open(os.path.join(C.REPO, "data/no_food_trade/computer_readable_combined.csv")) as fh:
+            for rr in csv.DictReader(fh):
+                _TABLE[rr["iso3"]] = rr
+    return _TABLE.get(cc)
 
 
 def run_trace(r):
@@ -26,7 +39,13 @@ def run_trace(r):
              "continued": (n, n), "continued_after_10_percent_fed": (n, n), "long_delayed_shutoff_after_10_percent_fed": (12, 6)}
     # (a "known to fail" combination is run with feed and biofuel shut off immediately: the documented correction)
     sf_cfg, sb_cfg = (0, 0) if (r.get("flags") or {}).get("patched") else sched.get(str(o.get("shutoff")), (-1, -1))
-    ev.append(dict(ev="Start", T=num(inp["T"]), Tcfg=num(tcfg), shutFcfg=sf_cfg, shutBcfg=sb_cfg, demF=[num(x, pct) for x in r["demand"]["feed"]],
+    row = table_row(r["job"]["cc"])
+    fy, by = inp["feed_kcals_year"], inp["biofuel_kcals_year"]
+    # (million dry caloric tons a year; the world aggregate has its own constants, not a table row)
+    fy_cfg = float(o["feed_kcals"]) if "feed_kcals" in o else (float(row["feed_kcals"]) if row else fy)
+    by_cfg = float(o["biofuel_kcals"]) if "biofuel_kcals" in o else (float(row["biofuel_kcals"]) if row else by)
+    ev.append(dict(ev="Start", T=num(inp["T"]), Tcfg=num(tcfg), shutFcfg=sf_cfg, shutBcfg=sb_cfg,
+                   feedYear=num(fy, 1e6), feedYearCfg=num(fy_cfg, 1e6), bioYear=num(by, 1e6), bioYearCfg=num(by_cfg, 1e6), demF=[num(x, pct) for x in r["demand"]["feed"]],
                    demB=[num(x, pct) for x in r["demand"]["biofuel"]], shutF=inp["feed_shutoff"], shutB=inp["biofuel_shutoff"]))
     interp = {i["round"]: i for i in r["interp"]}
     lps = {lp["round"]: lp for lp in r["lps"]}
